@@ -125,7 +125,10 @@ class SizeOracle(walkers.DagWalker):
 
     def walk_count_bool_dag(self, formula, args, measure, **kwargs):
         #pylint: disable=unused-argument
-        if formula.is_theory_relation():
+        if formula.is_theory_relation() or \
+           ((formula.is_function_application() or formula.is_select()) and
+            self.env.stc.get_type(formula).is_bool_type()):
+            # Theory atoms (relations, predicates, Boolean array reads) are leaves
             return frozenset([formula])
         return frozenset([formula]) | frozenset([x for s in args for x in s])
 
